@@ -74,8 +74,14 @@ type Contract struct {
 	SafetyOff bool
 	Extern    bool
 	ParamNames []string // names for unnamed parameters of interface methods
+	CallSites  []*CallSiteSpec
 	ModAssumed bool // the modifies clause is assumed, not checked against the body
 	DeclPkg   string // package whose contract file declares an extern contract
+}
+
+type CallSiteSpec struct {
+	Callee string
+	Clause *Clause
 }
 
 type Define struct {
@@ -476,6 +482,21 @@ func (cs *ContractSet) parseFile(fset *token.FileSet, f *ast.File, pkgPath, file
 							continue
 						}
 						cur.Modifies = append(cur.Modifies, &Clause{Text: it, Line: l.line, File: fileName})
+					}
+				case "callsite":
+					// callsite <callee name> requires[name] <expr>: asserted at every call of that callee in this function
+					cn, r2 := cutWord(rest)
+					kw, r3 := cutWord(r2)
+					if i := strings.Index(kw, "["); i > 0 {
+						r3 = kw[i:] + " " + r3
+						kw = kw[:i]
+					}
+					if kw != "requires" {
+						errf(l.line, "callsite: want <callee> requires <expr>")
+						continue
+					}
+					if c := mkClause(r3); c != nil {
+						cur.CallSites = append(cur.CallSites, &CallSiteSpec{Callee: cn, Clause: c})
 					}
 				case "trusted":
 					cur.Trusted = rest
